@@ -81,6 +81,8 @@ type Contract struct {
 	Unroll   int
 	Witness  []*Clause // expressions (entry state) whose model values are handed to the replay scenario
 	Fresh    []string  // named results that are freshly allocated objects
+	Before   map[string][]*Clause // "before <callee>: <expr>": must hold at every call of <callee> (by short method/function name) in this function
+	Sets     []*Clause // ghost assignments performed at every return: "sets <ghost location> = <expr>" (Exprs: [lhs, rhs])
 	Splits   []*Clause // case split: "split <expr>: v1, v2, ..." or "split <expr> pow2 lo hi"
 	// filled at bind time
 	ParamNames  []string
@@ -146,7 +148,7 @@ type ContractSet struct {
 var clauseKeywords = map[string]bool{
 	"property": true, "requires": true, "ensures": true, "modifies": true, "loop": true,
 	"inline": true, "trusted": true, "abstract": true, "nosafety": true, "replay": true,
-	"bounded": true, "note": true, "fnparam": true, "dispatch": true, "unroll": true, "assumes": true, "split": true, "fresh": true, "witness": true, "unguarded": true, "alsoinline": true, "timeout": true,
+	"bounded": true, "note": true, "fnparam": true, "dispatch": true, "unroll": true, "assumes": true, "split": true, "fresh": true, "witness": true, "unguarded": true, "alsoinline": true, "timeout": true, "sets": true, "before": true,
 }
 
 var propPrefix = regexp.MustCompile(`^\[((?:C\d+\s*)+)\]\s*`)
@@ -588,6 +590,35 @@ func (c *Contract) addClause(text string, line int, file string) error {
 		for _, ex := range es {
 			c.Witness = append(c.Witness, &Clause{Kind: "witness", Text: exprString(ex), Expr: ex, Line: line, File: file})
 		}
+	case "before":
+		// before <callee>: [label:] <expr>
+		i := strings.Index(rest, ":")
+		if i < 0 {
+			return fmt.Errorf("before <callee>: <expr>")
+		}
+		callee := strings.TrimSpace(rest[:i])
+		cl, err := mk("before", strings.TrimSpace(rest[i+1:]))
+		if err != nil {
+			return err
+		}
+		if c.Before == nil {
+			c.Before = map[string][]*Clause{}
+		}
+		c.Before[callee] = append(c.Before[callee], cl)
+	case "sets":
+		i := strings.Index(rest, " = ")
+		if i < 0 {
+			return fmt.Errorf("sets <ghost location> = <expr>")
+		}
+		lhs, err := parser.ParseExpr(strings.TrimSpace(rest[:i]))
+		if err != nil {
+			return err
+		}
+		rhs, err := parser.ParseExpr(strings.TrimSpace(rest[i+3:]))
+		if err != nil {
+			return err
+		}
+		c.Sets = append(c.Sets, &Clause{Kind: "sets", Text: rest, Exprs: []ast.Expr{lhs, rhs}, Line: line, File: file})
 	case "fresh":
 		c.Fresh = append(c.Fresh, fields[1:]...)
 	case "dispatch":
